@@ -41,6 +41,8 @@ type GateFS struct {
 	blocked map[string]int
 	journal []JournalOp
 	closed  bool
+	// ParkAtCreate: held table writes park in New as well as in Save
+	ParkAtCreate bool
 }
 
 func NewGateFS() *GateFS {
@@ -182,6 +184,11 @@ func (g *GateFS) Exists(uri string) bool { return g.inner.Exists(uri) }
 func (g *GateFS) List() []string         { return g.inner.List() }
 
 func (g *GateFS) New(path string) storage.File {
+	if g.ParkAtCreate && strings.HasSuffix(path, ".sst") {
+		// a held table write parks before its file is created (a slow or blocking
+		// create), not only before it is saved
+		g.gate(classify(path))
+	}
 	return &gateFile{File: g.inner.New(path), g: g}
 }
 func (g *GateFS) Open(path string) storage.File {
